@@ -294,7 +294,7 @@ def registry_rules(prog, run, rid, aspect):
         if g.qn in ("TestRegistry::testShouldRun", "TestRegistry::endOfGroup"):
             run.analysed(g)
     NOTIF = ("testsStarted", "testsEnded", "currentGroupStarted", "currentGroupEnded", "currentTestStarted", "currentTestEnded", "runOneTest")
-    for gp in registry_lists():
+    for gp in registry_lists(5 if run.tier == "thorough" else 4):
         n = len(gp)
         bad = None
         cases = 0
